@@ -280,6 +280,46 @@ def read_c_loop_guard(src, fname):
     raise ShapeError(f"{fname}: unrecognised loop condition `{conds[0].strip()}`")
 
 
+def probe_c_loop_guard():
+    """Fallback when the loop of the C validators no longer has the shape `read_c_loop_guard` reads (e.g. a `for` loop,
+    an extracted helper): decide the same question BEHAVIOURALLY.  The two functions are compiled from the source and
+    called in the reject state with a one-octet chunk: a loop that also tests `state != 1` is skipped (result 1, "valid
+    so far, not on a code point"), a loop that does not re-detects the rejection at index 0 (result -1).
+    -> (table_guards, unrolled_guards)"""
+    import json as _json
+    import shutil
+    import subprocess
+    import tempfile
+    tmp = Path(tempfile.mkdtemp(prefix="abverif-utf8probe-"))
+    try:
+        core.build_nvx(tmp, which=("utf8validator",), extra_cdef={"utf8validator":
+            "int _nvx_utf8vld_validate_table (void*, const uint8_t*, size_t);"
+            "int _nvx_utf8vld_validate_unrolled (void*, const uint8_t*, size_t);"})
+        code = (
+            "import sys, json; sys.path.insert(0, sys.argv[1])\n"
+            "import _nvx_utf8validator as m\n"
+            "out = []\n"
+            "for f in (m.lib._nvx_utf8vld_validate_table, m.lib._nvx_utf8vld_validate_unrolled):\n"
+            "    v = m.lib.nvx_utf8vld_new()\n"
+            "    r0 = f(v, b'\\xff', 1)\n"
+            "    r1 = f(v, b'a', 1)\n"
+            "    out.append([r0, r1])\n"
+            "    m.lib.nvx_utf8vld_free(v)\n"
+            "print(json.dumps(out))\n")
+        p = subprocess.run([core.PY, "-c", code, str(tmp)], capture_output=True, text=True, timeout=120)
+        if p.returncode != 0:
+            raise ShapeError("probing the compiled C validators failed: " + p.stderr[-300:])
+        res = _json.loads(p.stdout.strip().splitlines()[-1])
+        flags = []
+        for r0, r1 in res:
+            if r0 != -1 or r1 not in (-1, 1):
+                raise ShapeError(f"probing the compiled C validators: unexpected results {res}")
+            flags.append(r1 == 1)
+        return tuple(flags)
+    finally:
+        shutil.rmtree(tmp, ignore_errors=True)
+
+
 _LEAN_OP = {"==": "==", "!=": "!=", ">=": "≥", "<=": "≤", ">": ">", "<": "<"}
 
 
@@ -357,10 +397,16 @@ def translate(ctx=None):
             "namespace Abverif.Utf8.Gen\n\n"
             "/-- `DFA_TRANSITION(state, octet)`: the new value of `state` -/\n"
             "def unrolledC (state octet : Nat) : Nat :=\n" + body + "\n\nend Abverif.Utf8.Gen\n"))
-        gt = read_c_loop_guard(src, "_nvx_utf8vld_validate_table")
-        gu = read_c_loop_guard(src, "_nvx_utf8vld_validate_unrolled")
+        how = "from the while-conditions"
+        try:
+            gt = read_c_loop_guard(src, "_nvx_utf8vld_validate_table")
+            gu = read_c_loop_guard(src, "_nvx_utf8vld_validate_unrolled")
+        except ShapeError as e0:
+            # the loops were rewritten: decide the same question by compiling and probing the two functions
+            gt, gu = probe_c_loop_guard()
+            how = f"by probing the compiled functions in the reject state (loop shape not recognised: {e0})"
         core.write_if_changed(GEN / "Utf8LoopC.lean", (
-            "-- GENERATED by translate/utf8.py from the while-conditions of _nvx_utf8vld_validate_table/_unrolled "
+            f"-- GENERATED by translate/utf8.py {how} of _nvx_utf8vld_validate_table/_unrolled "
             "(src/autobahn/nvx/_utf8validator.c) — do not edit.\n"
             "namespace Abverif.Utf8.Gen\n\n"
             "/-- does the loop condition also test `state != 1` (then a call entered in the reject state skips the loop)? -/\n"
